@@ -18,13 +18,24 @@ type OwnCase struct {
 	Val  *ValCase    `json:"val,omitempty"`
 	Rob  *RobustCase `json:"rob,omitempty"`
 	Lim  *LimCase    `json:"lim,omitempty"`
+	Seg  *SegCase    `json:"seg,omitempty"`
 }
 
 // propOverride lets the shared runners report ownership violations as C11's.
 var propOverride string
 
 func genOwnCase(r *simrt.Rand, tier string, idx int) *OwnCase {
-	switch idx % 8 {
+	switch idx % 10 {
+	case 8, 9:
+		// pipelined messages in many segmentations: the parser's carry-over buffer is created,
+		// replaced and released at every cut (read-after-free shows as poison in its output)
+		c := genSegCase(r, tier)
+		c.Muts = nil
+		c.Multi = 32
+		for len(c.Msgs) < 2 {
+			c.Msgs = append(c.Msgs, genMsg(r, c.Response, false))
+		}
+		return &OwnCase{Seg: c}
 	case 0, 1, 2:
 		c := genRespCase(r, tier, r.Bool(0.5))
 		// bias to threshold-crossing chunked / identity writes
@@ -67,6 +78,8 @@ func runOwn(t *testing.T, ci interface{}, trace bool) *common.Outcome {
 		o = runRobust(t, c.Rob, trace)
 	case c.Lim != nil:
 		o = runLim(t, c.Lim, trace)
+	case c.Seg != nil:
+		o = runSeg(t, c.Seg, trace)
 	default:
 		return &common.Outcome{Infra: "empty C11 case"}
 	}
@@ -103,6 +116,26 @@ func shrinkOwn(ci interface{}) []interface{} {
 		for _, x := range shrinkLim(c.Lim) {
 			out = append(out, &OwnCase{Lim: x.(*LimCase)})
 		}
+	case c.Seg != nil:
+		for _, x := range shrinkSeg(c.Seg) {
+			out = append(out, &OwnCase{Seg: x.(*SegCase)})
+		}
 	}
 	return out
 }
+
+
+// GenOwn, RunOwn and ShrinkOwn export the single-threaded part of C11 to the e2e world, which
+// adds the close races (the same tracker under the real engine on the simulated kernel).
+func GenOwn(r *simrt.Rand, tier string, idx int) *OwnCase { return genOwnCase(r, tier, idx) }
+func RunOwn(t *testing.T, c *OwnCase, trace bool) *common.Outcome { return runOwn(t, c, trace) }
+func ShrinkOwn(c *OwnCase) []*OwnCase {
+	var out []*OwnCase
+	for _, x := range shrinkOwn(c) {
+		out = append(out, x.(*OwnCase))
+	}
+	return out
+}
+
+// OwnershipClass classifies a tracker violation for signatures.
+func OwnershipClass(v string) string { return ownershipClass(v) }
